@@ -250,6 +250,8 @@ type factsT struct {
 	minFileAge         time.Duration
 	safeMult           int64
 	safeFloor          time.Duration
+	purgeGuarded       bool // the shutdown purge is skipped while the flush-failure flag is up
+	resetClean         bool // the tick resets the flag only after a pass without a rejected entry
 }
 
 func loadFacts(c *vh.Ctx) factsT {
@@ -284,6 +286,8 @@ func loadFacts(c *vh.Ctx) factsT {
 	f.minFileAge = time.Duration(num("min_file_age_ns"))
 	f.safeMult = num("safe_age_mult")
 	f.safeFloor = time.Duration(num("safe_age_floor_ns"))
+	f.purgeGuarded, _ = c.Facts["purge_guarded_by_flag"].(bool)
+	f.resetClean, _ = c.Facts["reset_requires_clean_pass"].(bool)
 	return f
 }
 
@@ -683,7 +687,14 @@ func (s *sys) restart() {
 		case "purgeAll":
 			if s.w != nil {
 				w := s.w
-				hook := func(ctx context.Context) error { _, err := w.PurgeAll(); return err }
+				buf, guarded := s.buf, s.facts.purgeGuarded
+				hook := func(ctx context.Context) error {
+					if guarded && buf.HasFlushFailure() {
+						return nil
+					}
+					_, err := w.PurgeAll()
+					return err
+				}
 				if r.Kind == "hook" {
 					s.coord.RegisterHook(r.Name, hook, r.Priority)
 				} else {
@@ -788,7 +799,7 @@ func (s *sys) tick() {
 				SkipActiveFile: s.w.CurrentFile(), MinFileAge: s.facts.minFileAge, ColumnarCallback: s.colCallback()})
 			ok = err == nil
 		case "reset":
-			if ok {
+			if ok && !(s.facts.resetClean && len(s.rejected) > 0) {
 				s.buf.ResetFlushFailure()
 			}
 		}
